@@ -468,10 +468,12 @@ func (enc Encryptor) encryptZeroSkFromC1QP(sk *SecretKey, ct Element[ringqp.Poly
 	}
 
 	ringQP.NTT(c0, c0)
-	// ct[1] is assumed to be sampled in of the Montgomery domain,
-	// thus -as will also be in the Montgomery domain (s is by default), therefore 'e'
-	// must be switched to the Montgomery domain.
-	ringQP.MForm(c0, c0)
+	// ct[1] is uniform: when the metadata ask for the Montgomery domain it is read as a Montgomery
+	// representative, -as then is one too (s is by default), and 'e' must be switched to that
+	// domain as well.
+	if ct.IsMontgomery {
+		ringQP.MForm(c0, c0)
+	}
 
 	// (-a*sk + e, a)
 	ringQP.MulCoeffsMontgomeryThenSub(c1, sk.Value, c0)
